@@ -78,45 +78,40 @@ func (r *redisStore) SetTokenResponse(ctx context.Context, sessionID string, tok
 	log := r.log.Context(ctx).With("session-id", sessionID)
 	log.Debug("setting token response", "token_response", tokenResponse)
 
-	if err := r.client.HSet(ctx, sessionID, keyIDToken, tokenResponse.IDToken).Err(); err != nil {
-		return err
-	}
-
-	var keysToDelete []string
+	// All the members are written, and the stale ones removed, in a single transaction: a command that fails
+	// half way must not leave a session made of new and old members, or of tokens without their expiration.
+	var (
+		fields       = []any{keyIDToken, tokenResponse.IDToken}
+		keysToDelete []string
+	)
 
 	if tokenResponse.AccessToken != "" {
-		if err := r.client.HSet(ctx, sessionID, keyAccessToken, tokenResponse.AccessToken).Err(); err != nil {
-			return err
-		}
+		fields = append(fields, keyAccessToken, tokenResponse.AccessToken)
 	} else {
 		keysToDelete = append(keysToDelete, keyAccessToken)
 	}
 
 	if !tokenResponse.AccessTokenExpiresAt.IsZero() {
-		if err := r.client.HSet(ctx, sessionID, keyAccessTokenExpiry, tokenResponse.AccessTokenExpiresAt).Err(); err != nil {
-			return err
-		}
+		fields = append(fields, keyAccessTokenExpiry, tokenResponse.AccessTokenExpiresAt)
 	} else {
 		keysToDelete = append(keysToDelete, keyAccessTokenExpiry)
 	}
 
 	if tokenResponse.RefreshToken != "" {
-		if err := r.client.HSet(ctx, sessionID, keyRefreshToken, tokenResponse.RefreshToken).Err(); err != nil {
-			return err
-		}
+		fields = append(fields, keyRefreshToken, tokenResponse.RefreshToken)
 	} else {
 		keysToDelete = append(keysToDelete, keyRefreshToken)
 	}
 
-	if len(keysToDelete) > 0 {
-		log.Debug("deleting stale keys", "keys", keysToDelete)
-
-		if err := r.client.HDel(ctx, sessionID, keysToDelete...).Err(); err != nil {
-			return err
+	if _, err := r.client.TxPipelined(ctx, func(tx redis.Pipeliner) error {
+		tx.HSet(ctx, sessionID, fields...)
+		if len(keysToDelete) > 0 {
+			log.Debug("deleting stale keys", "keys", keysToDelete)
+			tx.HDel(ctx, sessionID, keysToDelete...)
 		}
-	}
-
-	if err := r.client.HSetNX(ctx, sessionID, keyTimeAdded, r.clock.Now()).Err(); err != nil {
+		tx.HSetNX(ctx, sessionID, keyTimeAdded, r.clock.Now())
+		return nil
+	}); err != nil {
 		return err
 	}
 
